@@ -138,7 +138,7 @@ def run_probe(name, cflags, inc, items, tmp, tables=False):
     r = subprocess.run(cmd, capture_output=True, text=True)
     if r.returncode != 0:
         sys.stderr.write("gen_constants: probe %s failed to compile:\n%s\n" % (name, r.stderr[-3000:]))
-        raise SystemExit(2)
+        raise SystemExit(3)          # the library builds but the translator no longer fits the source: the tie T1 is broken
     out = subprocess.run([exe], capture_output=True, text=True, check=True).stdout
     vals = {}
     for line in out.splitlines():
